@@ -49,9 +49,9 @@ def c11_program(draw):
         inst["extern_all"] = False
     # '.extern all' in at most one instance, only if none of its names is exported already by someone else
     cands = [x for x in insts if x["defs"] and all(exported.get(n, x["path"]) == x["path"] for n in x["defs"])]
-    if cands and draw(st.integers(0, 3)) == 0:
+    if cands and draw(st.integers(0, 2)) == 0:
         x = draw(st.sampled_from(cands))
-        x["extern_all"] = draw(st.sampled_from(["before", "after", "middle"]))
+        x["extern_all"] = draw(st.sampled_from(["before", "before", "after", "middle"]))
         for n, d in x["defs"].items():
             d["how"] = "private"      # exported through 'all' only (a second export would be a duplicate)
             exported[n] = x["path"]
@@ -256,6 +256,10 @@ def scopes_program(draw):
         if i == bad_at:
             missing = [n for n in names if n not in chosen]
             body.append({"k": "data", "d": "word", "es": [("loc", draw(st.sampled_from(missing)) + ":")]})
+    if draw(st.booleans()):
+        # one file exports everything it defines: numeric local labels stay what they are
+        target = draw(st.sampled_from(paths))
+        files[target].insert(draw(st.sampled_from([0, 0, len(files[target]) // 2])), {"k": "extern", "names": "all"})
     if draw(st.booleans()) and nfiles > 1:
         # turn the last file into an include of the first
         last = paths[-1]
